@@ -138,8 +138,8 @@ Consume ==
 
 Finish ==
   /\ pc = "submit" /\ Finished
-  /\ pc' = "done" /\ pending' = <<>>
-  /\ UNCHANGED <<next, nCons, round, objRound, nS, rows, chain, prop, oos, simAt, liks, nextId>>
+  /\ pc' = "done"
+  /\ UNCHANGED <<next, pending, nCons, round, objRound, nS, rows, chain, prop, oos, simAt, liks, nextId>>
 
 Next == Submit \/ GoWait \/ Consume \/ Finish
 Spec == Init /\ [][Next]_vars /\ WF_vars(Next)
@@ -159,6 +159,8 @@ ChainLength ==
                  /\ pending = <<>>
 \* one likelihood evaluation per simulated position, in chain order
 OneEvalPerPosition == \A i \in 1..Len(liks) : \A j \in 1..Len(liks) : i < j => liks[i].n < liks[j].n
+\* prepare_new_batch never reads past the end of state['params']
+CurrentParamsDefined == (pc = "submit" /\ ~Finished /\ Allowed) => nS < N
 NeverWaitsOnNothing == pc = "wait" => pending # <<>>
 Terminates == <>(pc = "done")
 =============================================================================
